@@ -15,6 +15,9 @@ Inductive omode := ORejected | OMode (m : mode).      (* flag error: status 2, u
 Record obs := {
   o_mode : omode;
   o_verbose_log : bool;                (* the generated main is verbose (the std logger is live) *)
+  o_announce : option bool;            (* the program itself announced the target / its dependency on stderr before the target
+                                          wrote anything (None: not observable in this run - the front end's debug stream, a
+                                          warning about a malformed variable ... share that stretch of stderr) *)
   o_verbose : bool; o_debug : bool; o_gocmd : string;      (* mg.Verbose() mg.Debug() mg.GoCmd() in the target *)
   o_timeout : Z;                       (* deadline of the target's context, ns; 0 = none; < 0 = already expired *)
   o_cwd : string;                      (* resolved working directory of the target (ViaMage) *)
@@ -47,7 +50,7 @@ Fixpoint zassoc (l : list (Z * string)) (k : Z) : string :=
 Definition jn (a b : string) : string := (a ++ "/" ++ b)%string.
 
 Definition blank (m : omode) : obs :=
-  {| o_mode := m; o_verbose_log := false; o_verbose := false; o_debug := false; o_gocmd := ""; o_timeout := 0%Z;
+  {| o_mode := m; o_verbose_log := false; o_announce := None; o_verbose := false; o_debug := false; o_gocmd := ""; o_timeout := 0%Z;
      o_cwd := ""; o_build := ""; o_env := []; o_stdin := None; o_stdout := None; o_stderr := None; o_words := [] |}.
 
 Definition model_obs (c : case) : obs :=
@@ -67,7 +70,7 @@ Definition model_obs (c : case) : obs :=
           let f := flags_of (match cl_parse parse_dur front_spec (c_words c) with POk a _ => a | PBad a => a | PHelp => [] end) in
           let inv := fst (fst (front_end dur_string jn true (c_layout c) f (c_env c))) in
           let w := run_compiled_wiring inv (length ws) in
-          {| o_mode := OMode (gm_mode args (length ws) has_default tenv); o_verbose_log := a_verbose args;
+          {| o_mode := OMode (gm_mode args (length ws) has_default tenv); o_verbose_log := a_verbose args; o_announce := Some (a_verbose args);
              o_verbose := mg_verbose tenv; o_debug := mg_debug tenv; o_gocmd := mg_gocmd tenv;
              o_timeout := a_timeout args; o_cwd := resolve cwd; o_build := resolve build;
              o_env := map (fun k => (k, lookup k tenv)) (c_keys c);
@@ -79,7 +82,7 @@ Definition model_obs (c : case) : obs :=
       | Rejected _ => blank ORejected
       | UsageShown => blank (OMode MUsage)
       | Runs args tenv ws =>
-          {| o_mode := OMode (gm_mode args (length ws) has_default tenv); o_verbose_log := a_verbose args;
+          {| o_mode := OMode (gm_mode args (length ws) has_default tenv); o_verbose_log := a_verbose args; o_announce := Some (a_verbose args);
              o_verbose := mg_verbose tenv; o_debug := mg_debug tenv; o_gocmd := mg_gocmd tenv;
              o_timeout := a_timeout args; o_cwd := ""; o_build := "";
              o_env := map (fun k => (k, lookup k tenv)) (c_keys c);
@@ -114,6 +117,7 @@ Definition obs_eqb (m o : obs) : bool :=
       if (o_timeout m <? 0)%Z then (o_timeout o <? 0)%Z     (* an expired context: the target body does not report *)
       else
         Bool.eqb (o_verbose_log m) (o_verbose_log o) && Bool.eqb (o_verbose m) (o_verbose o) &&
+        match o_announce o with Some b => option_eqb Bool.eqb (o_announce m) (Some b) | None => true end &&
         Bool.eqb (o_debug m) (o_debug o) && String.eqb (o_gocmd m) (o_gocmd o) &&
         Z.eqb (o_timeout m) (o_timeout o) &&
         String.eqb (o_cwd m) (o_cwd o) && String.eqb (o_build m) (o_build o) &&
